@@ -30,6 +30,15 @@ claim('C04', 'registry/sibling check of the operator table + path-sensitive valu
       'are as the statement assumes; every NumPy name reachable from operation() exists in the pinned NumPy. Not the per-coordinate numerical result.',
       'Assumes NumPy ufunc semantics and that the shipped stub files list the public NumPy names.', 'DESIGN.md §3 C04')
 
+claim('C05', 'guard-dominates-exit analysis of the constructor, who-may-write scan against a frozen justified table, typestate of the monotonicity cache, totality of the axes dispatch, version-keyed NumPy API rules',
+      'Decides structural clauses of C05: every normal exit of DimArray.__init__ passed the axes-sizes == values.shape test evaluated after the stores; '
+      '._values/._axes/_name are written only at enumerated, individually justified sites and an array\'s axes list is never resized in place; the size '
+      'guards of the axes setter / Axes.__setitem__ / Axis.values setter, the duplicate-name and non-empty-str-name guards and the 1-D guard dominate their '
+      'stores; every label write is followed by a reset of the cached monotonicity flag on every path and only a cached True is inherited by slices; '
+      '_init_axes is total; zeros/ones/nans fill what they promise; np.array(copy=False) is not used under NumPy >= 2. Equality of arrays built from '
+      'different argument forms is not decided.',
+      'Assumes list / ndarray builtin semantics and the documented NumPy 2 meaning of copy=False.', 'DESIGN.md §3 C05')
+
 UNDER_CONSTRUCTION = 'checker under construction in this session (claimed in DESIGN.md, not yet registered)'
 for pid in ['C01', 'C03', 'C04', 'C05', 'C06', 'C07', 'C08', 'C09', 'C10', 'C11', 'C12', 'C13', 'C14', 'C15', 'C16',
             'C17', 'C18', 'C19']:
